@@ -27,7 +27,7 @@ META = {
     "exhaustive_tiers": {"quick": {"catalogs n<=4 x 0..2 events x placeholder choices x header x 3 time spellings": True},
                          "thorough": {"catalogs n<=5 x 0..2 events x placeholder choices x header x 3 time spellings": True}},
 }
-META["added"] = 'Added: writer-model witness (sys.monitoring branch pairs), zero-valued fields, decreasing ids where the offending row is a placeholder row (with / without header). fractions with trailing zeros left out, LF / CRLF line ends and missing final terminator. exponent-notation fields incl. the first data row; the same file path re-used by every case.'
+META["added"] = 'Added: writer-model witness (sys.monitoring branch pairs), zero-valued fields, decreasing ids where the offending row is a placeholder row (with / without header). fractions with trailing zeros left out, LF / CRLF line ends and missing final terminator. exponent-notation fields incl. the first data row; the same file path re-used by every case. blank event ids.'
 MANIFEST = {
     "technique": "boundary recorder on the three loaders, exactly-once/ordering stream checker against the writer model; sys.monitoring LINE witness on the decoder generator recording branch transitions; exhaustive small encodings + random long files + rejection cases",
     "level_text": "All encodings of n<=4 (quick) / n<=5 (thorough) catalogs with 0..2 events, every placeholder/omitted choice, with/without header and three time spellings are enumerated completely and decoded through all three loaders; the yielded stream must be ids 0..n-1 in order with bit-identical fields; random files with long gaps and hostile ids; files with decreasing ids must be rejected. The witness lists decoder branch pairs actually executed.",
@@ -154,6 +154,8 @@ def mk_event(r, i, hostile_id=False):
     ms = ms - ms % 1000 + int(r.choice([0, 0, 1, 250, 999, 500, 120, int(r.integers(0, 1000))]))
     if hostile_id:
         eid = str(r.choice(['a,b', 'say "hi"', " lead", "trail ", "x;y", "'q'", "1234", "id with spaces", "ci,12\"3"])) + str(i)
+    elif r.uniform() < 0.06:
+        eid = ""                  # an event without an id (blank id column) is still an event
     else:
         eid = "ev%d" % i
     lat = float(numpy.round(r.uniform(-90, 90), int(r.integers(0, 6))))
